@@ -422,3 +422,54 @@ Theorem C03_honest_wins_checkpoints_bip158 : forall H hard v env raws hint cps p
       In (q, lq) cps -> lq !! i = Some x -> tc !! i = Some y -> x <> y -> In q bans).
 Proof. exact resolve_honest_wins_bip158. Qed.
 Print Assumptions C03_honest_wins_checkpoints_bip158.
+
+(* ===================== control checkpoints, every entry ===================== *)
+
+(* resolveConflict and the hard-coded filter-header checkpoints
+   (chainsync.ValidateCFHeader's table), for EVERY set of served lists, answers,
+   filters and map choices, honest peer or not: a peer whose list differs from
+   a control value at ANY entry - the first, one in the middle, the LAST one of
+   its list - is banned, and a list that is returned equals every control
+   value at every one of its entries. *)
+Theorem C03_control_checkpoint_any_entry : forall H hard v env raws hint cps bans res,
+  resolve_conflict H hard v env raws hint cps = (bans, res) ->
+  (forall q l (i : nat) c w, In (q, l) cps -> l !! i = Some c ->
+      hard (u32 ((Z.of_nat i + 1) * INTERVAL)) = Some w -> w <> c -> In q bans) /\
+  (forall l (i : nat) c w, res = Some l -> l !! i = Some c ->
+      hard (u32 ((Z.of_nat i + 1) * INTERVAL)) = Some w -> w = c).
+Proof.
+  intros H hard v env raws hint cps bans res Hr.
+  destruct (resolve_control H hard v env raws hint cps bans res Hr) as [Hb Hg]. split.
+  - intros q l i c w Hin Hl Hh Hne. apply (Hb q l Hin). apply peer_hard_bad_spec. by exists i, c, w.
+  - intros l i c w Hres Hl Hh. specialize (Hg l Hres).
+    destruct (decide (w = c)) as [E|E]; [done|]. exfalso.
+    assert (peer_hard_bad hard l = true) as Ht by (apply peer_hard_bad_spec; by exists i, c, w). congruence.
+Qed.
+Print Assumptions C03_control_checkpoint_any_entry.
+
+(* ===================== the filter is a SET of scripts ===================== *)
+
+(* VerifyBasicBlockFilter looks at a filter only through its Match predicate
+   on scripts, and at the block only through the SET of its output scripts:
+   how often a script occurs (twice in one transaction, in several
+   transactions, also as the script of a spent output) does not matter.  A
+   filter that matches every output script BIP-158 indexes - the honest
+   filter, whatever the multiplicities - passes; two blocks with the same
+   output scripts get the same verdict from every filter. *)
+Theorem C03_verify_filter_honest_passes : forall b f,
+  (forall s, In s (block_outs b) -> bip158_indexed s = true -> f (sc_tok s) = true) ->
+  verify_filter b f = Some (opret_matches b f).
+Proof.
+  intros b f Hall. apply (proj2 (proj2 (verify_filter_exact f b))).
+  intros (s & Hin & Hi & Hf). rewrite (Hall s Hin Hi) in Hf. discriminate.
+Qed.
+Print Assumptions C03_verify_filter_honest_passes.
+
+Theorem C03_verify_filter_set_of_scripts : forall b b' f,
+  (forall s, In s (block_outs b) <-> In s (block_outs b')) ->
+  (verify_filter b f = None <-> verify_filter b' f = None).
+Proof.
+  intros b b' f Hs. rewrite (proj1 (verify_filter_exact f b)), (proj1 (verify_filter_exact f b')).
+  unfold omits_required. split; intros (s & Hin & Hr); exists s; (split; [by apply Hs|done]).
+Qed.
+Print Assumptions C03_verify_filter_set_of_scripts.
